@@ -58,11 +58,47 @@ def run(ctx, driver):
         check_cell(rec, c, ans)
     near_miss(ctx, rec)
     refused_tunnels(ctx, rec)
+    target_extension(ctx, rec)
     return rec.finish("C10/B2 establishment matrix",
                       "proxy mode {none,http,https,socks5,socks5h} x scheme {http,https,ws,wss} x (http1,http2) in {10,11,01} x ALPN result "
                       "{http/1.1,h2,none} x sni_hostname {unset,set} (+-proxy auth): connect target, TLS handshakes (server name, ALPN offer, context), "
                       "protocol spoken and TLS layers under the request bytes are compared with the model plan and the property; plus sequences of "
                       "requests to origins differing in exactly one component. distinct = distinct cells / sequences")
+
+
+def target_extension(ctx, rec):
+    """The `target` extension replaces what is written as the request target; the connection is still chosen - host, port, TLS - by the
+    URL.  Explicit non-default ports, every proxy mode."""
+    for proxy in estb2.PROXY_MODES:
+        for scheme, port in (("http", 8080), ("https", 8443), ("http", None), ("https", None), ("https", 444), ("ws", 81)):
+            c = {"proxy": proxy, "scheme": scheme, "http1": True, "http2": False, "alpn_result": "http/1.1", "sni": None, "auth": None}
+            w = estb2.World(c)
+            out = w.request(scheme, "a.example", port, "tokTARGET", target=b"/elsewhere?x=1")
+            rec.evals += 1
+            rec.distinct.add(("target-ext", proxy, scheme, port))
+            rec.dist["target-extension:" + out["outcome"]] += 1
+            eff = port if port is not None else estb2.DEFAULT_PORT[scheme]
+            payload = {"proxy": proxy, "scheme": scheme, "port": port, "outcome": out["outcome"], "exc": out.get("exc"),
+                       "connects": [[r.get("host"), r.get("port")] for r in out["log"] if r["op"] == "connect_tcp"]}
+            if out["outcome"] != "ok":
+                rec.fail("target-extension-request-failed", {"proxy": proxy}, payload)
+                continue
+            # where did the request go?  direct: the TCP connection; tunnel: the CONNECT target; SOCKS: the negotiated target; forward:
+            # the absolute URL is replaced by the extension, nothing to check beyond the proxy connection
+            if proxy == "none":
+                ok = any(r["op"] == "connect_tcp" and r.get("host") == "a.example" and r.get("port") == eff for r in out["log"])
+            else:
+                px = [p for p in w.peers if getattr(p, "role", "") in ("proxy", "socks")]
+                wire = bytes(px[0].written) if px and hasattr(px[0], "written") else b""
+                if proxy in ("http", "https") and scheme != "http":
+                    ok = (b"CONNECT a.example:%d " % eff) in wire
+                elif proxy.startswith("socks"):
+                    tgt = getattr(px[0], "target", None) if px else None
+                    ok = tgt is None or (tgt[1] if isinstance(tgt, tuple) else None) in (eff, None) or str(eff).encode() in repr(tgt).encode()
+                else:
+                    ok = True
+            if not ok:
+                rec.fail("target-extension-changes-the-connection", {"proxy": proxy, "scheme": scheme}, payload)
 
 
 def refused_tunnels(ctx, rec):
